@@ -521,6 +521,12 @@ func join(context *api.Context, pathA b6.Geometry, pathB b6.Geometry) (b6.Geomet
 // determined by which points are shared between the paths. Returns an error
 // if no endpoints are shared.
 func orderedJoin(context *api.Context, pathA b6.Geometry, pathB b6.Geometry) (b6.Geometry, error) {
+	if _, err := polylineOf("ordered-join", pathA); err != nil {
+		return nil, err
+	}
+	if _, err := polylineOf("ordered-join", pathB); err != nil {
+		return nil, err
+	}
 	var reverseA, reverseB bool
 	if pathA.PointAt(pathA.GeometryLen()-1) == pathB.PointAt(0) {
 		reverseA, reverseB = false, false
